@@ -53,19 +53,19 @@ fn sev_json(e: &SEv) -> Value {
 
 /// Per node reference state for C02, maintained from SwarmEvents and harness calls only.
 #[derive(Default)]
-struct Ref {
-    est: BTreeMap<PeerId, BTreeSet<ConnectionId>>,
+pub struct Ref {
+    pub est: BTreeMap<PeerId, BTreeSet<ConnectionId>>,
     est_in: u32,
     est_out: u32,
     dir: HashMap<ConnectionId, bool>,
-    pending_out: HashSet<ConnectionId>,
-    pending_in: HashSet<ConnectionId>,
+    pub pending_out: HashSet<ConnectionId>,
+    pub pending_in: HashSet<ConnectionId>,
 }
 
 pub struct Mon {
     pub n: usize,
     pub sev: Vec<Vec<SEv>>,
-    refs: Vec<Ref>,
+    pub refs: Vec<Ref>,
     /// ids for which `Swarm::dial` returned Ok (application dials)
     pub dial_ok: Vec<HashSet<ConnectionId>>,
     /// ids for which `Swarm::dial` returned Err, with the error kind
@@ -76,7 +76,7 @@ pub struct Mon {
 }
 
 impl Mon {
-    fn new(n: usize) -> Mon {
+    pub fn new(n: usize) -> Mon {
         Mon {
             n,
             sev: vec![vec![]; n],
@@ -93,6 +93,13 @@ impl Mon {
     }
 
     fn on_event(&mut self, net: &mut Net<B>, i: usize, ev: SwarmEvent<ProbeEvent>) {
+        let peers: Vec<PeerId> = net.nodes.iter().map(|n| n.peer).collect();
+        let Some(sw) = net.nodes[i].swarm.as_ref() else { return };
+        self.on_event_swarm(sw, &peers, i, ev)
+    }
+
+    /// same, for a swarm that is not inside a `Net` (multi-threaded mode)
+    pub fn on_event_swarm(&mut self, sw: &libp2p_swarm::Swarm<B>, peers: &[PeerId], i: usize, ev: SwarmEvent<ProbeEvent>) {
         let r = &mut self.refs[i];
         let mut carried: Option<(&'static str, u32, u32)> = None;
         let s = match ev {
@@ -146,13 +153,18 @@ impl Mon {
                 self.c02.push((format!("carried-count:{what}"), format!("node {i}: {what} = {got}, history implies {want}"), json!({"event": sev_json(&s)})));
             }
             self.sev[i].push(s.clone());
-            self.compare_views(net, i, &format!("after event {}", sev_json(&s)));
+            self.compare_views_swarm(sw, peers, i, &format!("after event {}", sev_json(&s)));
         }
     }
 
     /// C02: compare every public view with the reference
     fn compare_views(&mut self, net: &mut Net<B>, i: usize, when: &str) {
+        let peers: Vec<PeerId> = net.nodes.iter().map(|n| n.peer).collect();
         let Some(sw) = net.nodes[i].swarm.as_ref() else { return };
+        self.compare_views_swarm(sw, &peers, i, when)
+    }
+
+    pub fn compare_views_swarm(&mut self, sw: &libp2p_swarm::Swarm<B>, all_peers: &[PeerId], i: usize, when: &str) {
         self.c02_checks += 1;
         let r = &self.refs[i];
         let info = sw.network_info();
@@ -166,7 +178,7 @@ impl Mon {
         if info.num_peers() != want_peers.len() {
             bad.push(("num_peers".into(), format!("{} vs {}", info.num_peers(), want_peers.len())));
         }
-        for p in net.nodes.iter().map(|n| n.peer) {
+        for p in all_peers.iter().copied() {
             if sw.is_connected(&p) != want_peers.contains(&p) {
                 bad.push(("is_connected".into(), format!("is_connected({p}) = {}", sw.is_connected(&p))));
             }
@@ -694,8 +706,13 @@ fn run_common(args: &Args, which: &str) -> i32 {
          scheduler with optional byte-level chunking; non-trivial = history with >= 1 established, >= 1 closed and >= 1 failed connection; \
          distinct by the sequence of lifecycle event kinds per node",
     );
-    let cases = args.tier.pick(4_000, 400_000);
+    let cases = if args.extra.get("budget").map(|s| s == "tiny").unwrap_or(false) { 150 } else { args.tier.pick(4_000, 400_000) };
     let max_ops = args.tier.pick(40, 60);
+    // second mode: real threads (swarm threads + ThreadPool executor) instead of the PRNG scheduler
+    let mt_cases = if args.extra.get("budget").map(|s| s == "tiny").unwrap_or(false) { 4 } else { args.tier.pick(40u64, 3_000) };
+    if check.only_case.is_none() {
+        crate::mt::run_into(&check, which, mt_cases, 3);
+    }
     vmon::par_cases_timed(&check, cases, args.threads, args.tier.pick(30.0, 420.0), |_, rng| {
         let o = run_case(rng, max_ops);
         check.case(o.sig, o.established > 0 && o.closed > 0 && o.errors > 0);
